@@ -7,6 +7,7 @@ import WrglModel.Model.TableId
 import WrglModel.Spec.TableInv
 import WrglModel.Lemmas.C01
 import WrglModel.Lemmas.C03Producers
+import WrglModel.Model.Resolver
 import WrglModel.Gen.Facts
 namespace Wrgl
 
@@ -136,6 +137,133 @@ theorem C03_ingest_diagnosis_clean (H : Bytes → Bytes) (sortPerm : List Bytes 
     diagnose (fullTableOfStored H sortPerm mc pk t) = none := by
   apply C03_diagnose_complete _ (C03_ingest_inv H sortPerm hp sortFn pk hs w mc runSize columns rows t hw h) _ hpk hnames
   simp [fullTableOfStored, Function.comp_def]
+
+/-! ### doctor resolve: one sorter over a history of issues -/
+
+/-- every position `slice.KeyIndices` returns lies inside the column list -/
+theorem keyIndices_lt (columns : Row) : ∀ (ks : List Bytes) (r : List Nat), keyIndices columns ks = .ok r →
+    ∀ i ∈ r, i < columns.length
+  | [], r, h, i, hi => by
+    simp [keyIndices] at h; subst h; simp at hi
+  | k :: ks, r, h, i, hi => by
+    unfold keyIndices at h
+    simp only at h
+    split at h
+    · exact absurd h (by simp)
+    · cases hr : keyIndices columns ks with
+      | ok r' =>
+        rw [hr] at h
+        simp only [Res.ok.injEq] at h
+        subst h
+        rcases List.mem_append.1 hi with hi | hi
+        · exact List.mem_range.1 (List.mem_filter.1 hi).1
+        · exact keyIndices_lt columns ks r' hr i hi
+      | err e => rw [hr] at h; exact absurd h (by simp)
+      | panic p => rw [hr] at h; exact absurd h (by simp)
+
+/-- An issue resolved by a resolver in ANY state (whatever its sorter holds and whatever key the
+    issue before left in it) stores exactly what an ingest of that table's rows under the table's
+    own new key stores (columns without a name named, as every ingest does): `Reset` forgets the
+    rows, the assignment of `PK` forgets the key. -/
+theorem C03_resolve_one_is_ingest (sortOf : List Nat → List Row → List Row) (bs : Nat) (maxCell : Option Nat) (runSize : Nat)
+    (st st' : ResolverSt) (d : DamagedTable) (t : StoredTable)
+    (h : resolveOne sortOf bs maxCell runSize st d = .ok (t, st')) :
+    ∃ pk, resolvedKey d = .ok pk ∧ ingestTable (sortOf pk) bs maxCell runSize (ensureNames d.columns) pk d.rows = .ok t ∧ st'.srtPK = pk := by
+  unfold resolveOne at h
+  cases hk : resolvedKey d with
+  | err e => rw [hk] at h; exact absurd h (by simp)
+  | panic p => rw [hk] at h; exact absurd h (by simp)
+  | ok pk =>
+    rw [hk] at h
+    simp only [reuse, SorterSt.reset, SorterSt.empty] at h
+    refine ⟨pk, rfl, ?_⟩
+    unfold ingestTable
+    cases ha : addRows (sortOf pk) maxCell runSize { chunks := [], current := [], size := 0 } d.rows with
+    | err e => rw [ha] at h; exact absurd h (by simp)
+    | panic p => rw [ha] at h; exact absurd h (by simp)
+    | ok s =>
+      rw [ha] at h
+      simp only [Res.ok.injEq, Prod.mk.injEq] at h
+      obtain ⟨h1, h2⟩ := h
+      subst h1; subst h2
+      exact ⟨rfl, rfl⟩
+
+/-- … so what an issue's resolution stores does not depend on the issues resolved before it. -/
+theorem C03_resolve_history_independent (sortOf : List Nat → List Row → List Row) (bs : Nat) (maxCell : Option Nat) (runSize : Nat)
+    (st : ResolverSt) (d : DamagedTable) :
+    (match resolveOne sortOf bs maxCell runSize st d with
+     | .ok (t, _) => Res.ok t
+     | .err e => .err e
+     | .panic p => .panic p) =
+    (match resolveOne sortOf bs maxCell runSize ResolverSt.fresh d with
+     | .ok (t, _) => Res.ok t
+     | .err e => .err e
+     | .panic p => .panic p) := by
+  unfold resolveOne reuse SorterSt.reset
+  rfl
+
+/-- the key a resolution gives a table of `w` columns names columns of that table -/
+theorem resolvedKey_lt (d : DamagedTable) (pk : List Nat) (h : resolvedKey d = .ok pk) : ∀ i ∈ pk, i < d.columns.length := by
+  unfold resolvedKey at h
+  split at h
+  · exact absurd h (by simp)
+  · exact keyIndices_lt d.columns _ pk h
+
+/-- Doctor resolve over a whole history of issues of one ref (re-ingests and key resets in any
+    order, one sorter for all of them, started in any state): every table it writes satisfies
+    every clause of the invariant, provided the rows of each damaged table have as many cells as the
+    table has columns. -/
+theorem C03_resolve_inv (H : Bytes → Bytes) (sortPerm : List Bytes → List Nat) (hp : IsSortPerm sortPerm)
+    (sortOf : List Nat → List Row → List Row) (hs : ∀ pk, IsSort pk (sortOf pk)) (mc : Nat) (runSize : Nat) :
+    ∀ (ds : List DamagedTable) (st : ResolverSt) (ts : List StoredTable),
+    (∀ d ∈ ds, ∀ r ∈ d.rows, r.length = d.columns.length) →
+    resolveAll sortOf Facts.blockSize Facts.addRowMaxCell runSize st ds = .ok ts →
+    ∀ t ∈ ts, tableInv Facts.blockSize (fullTableOfStored H sortPerm mc t.pk t) = []
+  | [], _, ts, _, h, t, ht => by
+    simp [resolveAll] at h; subst h; simp at ht
+  | d :: ds, st, ts, hw, h, t, ht => by
+    unfold resolveAll at h
+    cases h1 : resolveOne sortOf Facts.blockSize Facts.addRowMaxCell runSize st d with
+    | err e => rw [h1] at h; exact absurd h (by simp)
+    | panic p => rw [h1] at h; exact absurd h (by simp)
+    | ok r =>
+      obtain ⟨t1, st1⟩ := r
+      rw [h1] at h
+      simp only at h
+      cases h2 : resolveAll sortOf Facts.blockSize Facts.addRowMaxCell runSize st1 ds with
+      | err e => rw [h2] at h; exact absurd h (by simp)
+      | panic p => rw [h2] at h; exact absurd h (by simp)
+      | ok ts' =>
+        rw [h2] at h
+        simp only [Res.ok.injEq] at h
+        subst h
+        rcases List.mem_cons.1 ht with e | ht'
+        · subst e
+          obtain ⟨pk, hk, hi, _⟩ := C03_resolve_one_is_ingest sortOf _ _ runSize st st1 d t h1
+          have hpk : t.pk = pk := by
+            unfold ingestTable at hi
+            split at hi
+            · exact absurd hi (by simp)
+            · exact absurd hi (by simp)
+            · simp only [Res.ok.injEq] at hi; rw [← hi]
+          rw [hpk]
+          have hwf : RowsWF d.columns.length pk d.rows :=
+            ⟨hw d (by simp), resolvedKey_lt d pk hk⟩
+          exact C03_ingest_inv H sortPerm hp (sortOf pk) pk (hs pk) d.columns.length mc runSize (ensureNames d.columns) d.rows t hwf hi
+        · exact C03_resolve_inv H sortPerm hp sortOf hs mc runSize ds st1 ts' (fun d' hd' => hw d' (List.mem_cons_of_mem _ hd')) h2 t ht'
+
+/-- insertion sort by key (a sort `decide` can run) -/
+def insertByKey (pk : List Nat) (r : Row) : List Row → List Row
+  | [] => [r]
+  | x :: xs => if rowLt pk r x then r :: x :: xs else x :: insertByKey pk r xs
+
+/-- non-vacuity: a keyed re-ingest followed by a key reset, by one resolver; the second table is
+    sorted by its whole rows and labelled with them, not by the key of the first -/
+example : resolveAll (fun pk l => l.foldr (insertByKey pk) []) 255 (some 65535) 1000000 ResolverSt.fresh
+    [{ columns := [[97], [98]], pk := [1], rows := [[[50], [49]], [[49], [50]], [[49], [50]]], resolution := .reingest },
+     { columns := [[97], [98]], pk := [7], rows := [[[50], [49]], [[49], [50]]], resolution := .resetPK }] =
+    .ok [{ columns := [[97], [98]], pk := [1], rowsCount := 2, blocks := [[[[50], [49]], [[49], [50]]]], tblIdx := [[[49]]] },
+         { columns := [[97], [98]], pk := [], rowsCount := 2, blocks := [[[[49], [50]], [[50], [49]]]], tblIdx := [[[49], [50]]] }] := by decide
 
 /-- non-vacuity: a concrete two-block-free table meets the hypotheses of `C03_diagnose_complete` -/
 example : tableInv 255 { columns := [[97]], pk := [0], rowsCount := 1, blocks := [[[[49]]]], hashes := [[([1], [2])]], indices := [{ sortedOff := [0], rows := [([1], [2])] }], tblIdx := [[[49]]] } = [] := by decide
